@@ -557,6 +557,20 @@ class Interp:
             if isinstance(args[0], AxArr):
                 return True
             return UNK
+        if path in ('typing.cast', 'typing_extensions.cast') and len(args) == 2:
+            return args[1]
+        if path == 'operator.index' and len(args) == 1:
+            if isinstance(args[0], int) and not isinstance(args[0], bool):
+                return args[0]
+            if _concrete(args[0]):
+                raise Raised('TypeError')
+            return UNK
+        if path.startswith('operator.') and all(_concrete(x) for x in args) and not kwargs:
+            import operator as _op
+
+            fn_ = getattr(_op, path.split('.', 1)[1], None)
+            if callable(fn_) and path.split('.', 1)[1] in ('add', 'sub', 'mul', 'neg', 'lt', 'le', 'gt', 'ge', 'eq', 'ne', 'mod', 'floordiv', 'getitem', 'contains', 'not_', 'truth', 'abs'):
+                return fn_(*args)
         if path == 'collections.Counter' and args and _concrete(args[0]):
             return Counter(args[0])
         if path in ('operator.itemgetter',) and all(_concrete(a) for a in args):
